@@ -472,8 +472,12 @@ def _main(prop, tier, seed, replay, t0) -> int:
         "wall_s": round(wall, 2),
         "violations": len(violations),
     }
-    os.makedirs(os.path.join(VERIF, "evidence"), exist_ok=True)
-    with open(os.path.join(VERIF, "evidence", f"{prop}.json"), "w", encoding="utf-8") as f:
+    # evidence/ describes runs against /repo itself; a run pointed at a scratch copy (sensitivity experiments with
+    # VERIF_REPO) writes its record under out/ instead and never touches the committed evidence
+    scratch = os.path.realpath(os.environ.get("VERIF_REPO", "/repo")) != os.path.realpath("/repo")
+    edir = os.path.join(VERIF, "out", "evidence-scratch") if scratch else os.path.join(VERIF, "evidence")
+    os.makedirs(edir, exist_ok=True)
+    with open(os.path.join(edir, f"{prop}.json"), "w", encoding="utf-8") as f:
         json.dump(evidence, f, indent=1, ensure_ascii=True, default=repr)
         f.write("\n")
 
